@@ -334,12 +334,28 @@ package mocker
 //@   panics_only_if rejected: true
 //@   ensures_on_panic rejected_configuration_leaves_unmocked_targets_alone: patch.panic_frame()
 
-//@ trusted func CreateWhen
-//@   props C12
-//@   assigns nothing
+// argument conditions: each given value / expression is resolved against its own parameter type (ToExpr); trusted here,
+// its matching behaviour is DefaultMatcher.Match's contract (C04)
+//@ trusted func newDefaultMatch
+//@   props C04
+//@   assigns varval
 //@   fresh
-//@   ensures when_or_error: (result0 == nil) == (result1 != nil) && (result0 != nil ==> result0.funcTyp != nil)
-//@   ensures too_few_returns_rejected: defaultReturns != nil && funcDef != nil && len(defaultReturns) < rt_numout(rt_of(typeof(funcDef))) ==> result1 != nil
+//@   may_panic
+
+//@ func CreateWhen
+//@   props C12 C13 C09
+//@   requires type: funcDef != nil && rt_kind(rt_of(typeof(funcDef))) == reflect.Func && len(defaultReturns) < 0x10000
+//@   assigns varval
+//@   ensures when_or_error: (result0 == nil) == (result1 != nil) && (result0 != nil ==> result0.funcTyp != nil && fresh(result0))
+//@   ensures too_few_returns_rejected: defaultReturns != nil && len(defaultReturns) < rt_numout(rt_of(typeof(funcDef))) ==> result1 != nil
+//@   ensures too_few_args_rejected: args != nil && len(args) + ite(isMethod, int(1), int(0)) < rt_numin(rt_of(typeof(funcDef))) ==> result1 != nil
+//@   ensures configured_for_this_function: result1 == nil ==> result0.funcTyp == rt_of(typeof(funcDef)) && result0.funcDef == funcDef && result0.isMethod == isMethod && len(result0.matches) == 0
+//@   ensures no_default_without_values: result1 == nil && defaultReturns == nil && rt_numout(rt_of(typeof(funcDef))) > 0 ==> result0.defaultReturns == nil
+//@   ensures default_results_stored_converted: result1 == nil && defaultReturns != nil ==> result0.defaultReturns != nil && typeof(result0.defaultReturns) == typeid(*AlwaysMatcher)
+//@     | && unbox(result0.defaultReturns, *AlwaysMatcher) != nil && unbox(result0.defaultReturns, *AlwaysMatcher).BaseMatcher != nil
+//@     | && len(unbox(result0.defaultReturns, *AlwaysMatcher).BaseMatcher.results) == 1
+//@     | && forall j int :: 0 <= j && j < len(defaultReturns) ==> arg.i2v_converted(defaultReturns[j], unbox(result0.defaultReturns, *AlwaysMatcher).BaseMatcher.results[0][j], rt_out(rt_of(typeof(funcDef)), j))
+//@   panics_only_if conversion_rejected: true
 
 //@ func (m *baseMocker) whens
 //@   props C12
@@ -377,6 +393,7 @@ package mocker
 //@ func (m *DefMocker) Return
 //@   props C12 C01
 //@   requires receiver: m != nil && m.baseMocker != nil && !m.baseMocker.canceled
+//@   requires target_is_a_function: m.funcDef != nil && rt_kind(rt_of(typeof(m.funcDef))) == reflect.Func && len(value) < 0x10000
 //@   requires inv: mocker_inv(m.baseMocker)
 //@   requires patch_state: patch_state_ok()
 //@   assigns m.baseMocker.when, m.baseMocker.guard, m.baseMocker.imp, m.baseMocker.funcDef, running[m.baseMocker], stub_of[m.baseMocker], textmem, perm, mapof(patch.patches), anyfield(patch.patch, guard), anyfield(patch.Guard, applied),
@@ -542,6 +559,7 @@ package mocker
 //@ func (m *DefMocker) Returns
 //@   props C13 C12
 //@   requires receiver: m != nil && m.baseMocker != nil
+//@   requires target_is_a_function: m.funcDef != nil && rt_kind(rt_of(typeof(m.funcDef))) == reflect.Func && len(values) < 0x10000
 //@   requires patch_state: patch_state_ok()
 //@   assigns m.baseMocker.when, m.baseMocker.guard, m.baseMocker.imp, m.baseMocker.funcDef, running[m.baseMocker], stub_of[m.baseMocker], textmem, perm, mapof(patch.patches), anyfield(patch.patch, guard), anyfield(patch.Guard, applied),
 //@     | mutex_held[addr(patch.patchesLock)], rw_wheld[addr(memory.memoryAccessLock)], rw_rheld[addr(memory.memoryAccessLock)], placeholder_target[m.baseMocker.origin], varval, anyfield(When, matches), anyfield(When, defaultReturns), anyfield(When, curMatch), anyfield(BaseMatcher, results)
@@ -552,6 +570,7 @@ package mocker
 //@ func (m *DefMocker) When
 //@   props C13 C12
 //@   requires receiver: m != nil && m.baseMocker != nil
+//@   requires target_is_a_function: m.funcDef != nil && rt_kind(rt_of(typeof(m.funcDef))) == reflect.Func && len(specArg) < 0x10000
 //@   requires patch_state: patch_state_ok()
 //@   assigns m.baseMocker.when, m.baseMocker.guard, m.baseMocker.imp, m.baseMocker.funcDef, running[m.baseMocker], stub_of[m.baseMocker], textmem, perm, mapof(patch.patches), anyfield(patch.patch, guard), anyfield(patch.Guard, applied),
 //@     | mutex_held[addr(patch.patchesLock)], rw_wheld[addr(memory.memoryAccessLock)], rw_rheld[addr(memory.memoryAccessLock)], placeholder_target[m.baseMocker.origin], varval, anyfield(When, matches), anyfield(When, defaultReturns), anyfield(When, curMatch), anyfield(BaseMatcher, results)
@@ -562,6 +581,7 @@ package mocker
 //@ func (m *MethodMocker) Return
 //@   props C13 C12
 //@   requires receiver: m != nil && m.baseMocker != nil && m.structDef != nil
+//@   requires target_is_a_method: m.methodIns != nil && rt_kind(rt_of(typeof(m.methodIns))) == reflect.Func && len(value) < 0x10000
 //@   requires patch_state: patch_state_ok()
 //@   assigns m.baseMocker.when, m.baseMocker.guard, m.baseMocker.imp, m.baseMocker.funcDef, running[m.baseMocker], stub_of[m.baseMocker], textmem, perm, mapof(patch.patches), anyfield(patch.patch, guard), anyfield(patch.Guard, applied),
 //@     | mutex_held[addr(patch.patchesLock)], rw_wheld[addr(memory.memoryAccessLock)], rw_rheld[addr(memory.memoryAccessLock)], placeholder_target[m.baseMocker.origin], varval, anyfield(When, matches), anyfield(When, defaultReturns), anyfield(When, curMatch), anyfield(BaseMatcher, results)
@@ -572,6 +592,7 @@ package mocker
 //@ func (m *MethodMocker) Returns
 //@   props C13 C12
 //@   requires receiver: m != nil && m.baseMocker != nil && m.structDef != nil
+//@   requires target_is_a_method: m.methodIns != nil && rt_kind(rt_of(typeof(m.methodIns))) == reflect.Func && len(values) < 0x10000
 //@   requires patch_state: patch_state_ok()
 //@   assigns m.baseMocker.when, m.baseMocker.guard, m.baseMocker.imp, m.baseMocker.funcDef, running[m.baseMocker], stub_of[m.baseMocker], textmem, perm, mapof(patch.patches), anyfield(patch.patch, guard), anyfield(patch.Guard, applied),
 //@     | mutex_held[addr(patch.patchesLock)], rw_wheld[addr(memory.memoryAccessLock)], rw_rheld[addr(memory.memoryAccessLock)], placeholder_target[m.baseMocker.origin], varval, anyfield(When, matches), anyfield(When, defaultReturns), anyfield(When, curMatch), anyfield(BaseMatcher, results)
@@ -589,3 +610,35 @@ package mocker
 //@   panics_only_if configuration_rejected: true
 //@   ensures_on_panic rejected_configuration_leaves_unmocked_targets_alone: patch.panic_frame()
 
+
+// ---- C09/C05: values given to Return are converted once, for the declared result types, and stored ----------------------
+//@ func outTypes
+//@   props C09 C13 C04
+//@   requires type: funTyp != nil && rt_kind(funTyp) == reflect.Func
+//@   assume reflect_model_fact: 0 <= rt_numout(funTyp) && rt_numout(funTyp) < 0x10000
+//@   assigns nothing
+//@   invariant loop 1 filled: 0 <= i && i <= numOut && numOut == rt_numout(funTyp) && len(typeList) == numOut && fresh(typeList) && funTyp != nil && rt_kind(funTyp) == reflect.Func
+//@     | && (forall j int :: 0 <= j && j < i ==> typeList[j] == rt_out(funTyp, j) && typeList[j] != nil)
+//@   decreases loop 1 numOut - i
+//@   ensures declared_result_types: len(result) == rt_numout(funTyp) && fresh(result) && forall j int :: 0 <= j && j < len(result) ==> result[j] == rt_out(funTyp, j) && result[j] != nil
+
+//@ func newBaseMatcher
+//@   props C09 C05 C13
+//@   requires type: results != nil ==> funTyp != nil && rt_kind(funTyp) == reflect.Func
+//@   requires size: len(results) < 0x10000
+//@   assigns varval
+//@   ensures built: result != nil && fresh(result) && result.curNum == 0 && result.funTyp == funTyp
+//@   ensures no_results_yet: results == nil ==> len(result.results) == 0
+//@   ensures converted_for_the_declared_result_types: results != nil ==> len(result.results) == 1 && len(result.results[0]) == len(results) && len(results) == rt_numout(funTyp)
+//@     | && forall j int :: 0 <= j && j < len(results) ==> arg.i2v_converted(results[j], result.results[0][j], rt_out(funTyp, j))
+//@   panics_only_if conversion_rejected: true
+
+//@ func (c *BaseMatcher) AddResult
+//@   props C09 C05 C13
+//@   requires receiver: c != nil && c.funTyp != nil && rt_kind(c.funTyp) == reflect.Func && len(results) < 0x10000 && len(c.results) < 0x10000
+//@   assigns c.results, varval, c.results[len(c.results) : cap(c.results)]
+//@   ensures appended_after_the_earlier_ones: len(c.results) == old(len(c.results)) + 1 && forall k int :: 0 <= k && k < old(len(c.results)) ==> c.results[k] == old(c.results[k])
+//@   ensures converted_for_the_declared_result_types: len(c.results[len(c.results) - 1]) == len(results) && len(results) == rt_numout(c.funTyp)
+//@     | && forall j int :: 0 <= j && j < len(results) ==> arg.i2v_converted(results[j], c.results[len(c.results) - 1][j], rt_out(c.funTyp, j))
+//@   panics_only_if conversion_rejected: true
+//@   ensures_on_panic sequence_unchanged: c.results == old(c.results)
